@@ -11,6 +11,7 @@ import traceback
 from . import tlc
 
 _FN = None
+_PROP = None
 
 
 def _call(args):
@@ -21,6 +22,13 @@ def _call(args):
     except common.MachineryError as e:
         return i, None, f"machinery: {e}"
     except Exception as e:  # noqa
+        # an exception raised inside xeofs on an input the specification calls valid is a
+        # violation of the property under check; one raised by the harness itself is machinery
+        tb = traceback.extract_tb(e.__traceback__)
+        in_impl = any(str(common.REPO) in (fr.filename or "") for fr in tb)
+        if in_impl and _PROP:
+            where = [f"{fr.filename.split('/')[-1]}:{fr.lineno}" for fr in tb if str(common.REPO) in (fr.filename or "")][-1]
+            return i, dict(found=[(_PROP, "ImplementationRaised", f"xeofs raised {type(e).__name__} at {where} on a valid scenario: {str(e)[:160]}")], D=1), None
         return i, None, f"{type(e).__name__}: {e}\n{traceback.format_exc()[-1800:]}"
 
 
@@ -36,8 +44,9 @@ def enumerate_scenarios(rep, module, cfg_lines, name, workers=4, tagged=False):
 def evaluate(rep, scenarios, fn, procs=16, chunksize=4, sample_fmt=None):
     """fn(i, scenario) -> dict(found=[(prop, clause, msg)], P=, D=, M=, extra=...)
     Returns findings [(prop, clause, msg, scenario)]."""
-    global _FN
+    global _FN, _PROP
     _FN = fn
+    _PROP = rep.prop
     findings = []
     t0 = time.time()
     items = list(enumerate(scenarios))
